@@ -95,6 +95,26 @@ def main():
         c = copy.deepcopy(ev)
         c[k]["adj"][0][0] += 1
         expect("Trace_C20 corrupted adjugate entry rejected", lines(kernels.validate_trace(ctx, c, "c20-adj")) == [k + 1])
+        # ---- Trace_Ops: stateless operations on larger coordinates
+        from harness import optrace
+        ops = ["dist2_pp", "foot_ph", "seg_contains", "poly_contains2", "crossratio", "apply_hyper", "is_coplanar", "area2"]
+        c0 = len(ctx.violations)
+        optrace.run_optrace(ctx, ops, n_quick=400)
+        expect("Trace_Ops pristine accepted", len(ctx.violations) == c0)
+        real_record = optrace.record
+
+        def corrupted(ops_, seed, n):
+            ev = real_record(ops_, seed, n)
+            ev[8]["r"] = [ev[8]["r"][0] + 1, ev[8]["r"][1]]           # dist2_pp: wrong squared distance
+            ev[10]["r"] = not ev[10]["r"]                            # seg_contains: wrong truth value
+            ev[13]["r"] = [ev[13]["r"][1], ev[13]["r"][0]] + ev[13]["r"][2:]   # apply_hyper: another class
+            return ev
+        optrace.record = corrupted
+        optrace.run_optrace(ctx, ops, n_quick=400)
+        optrace.record = real_record
+        got = sorted((v["site"], v["stratum"]) for v in ctx.violations[c0:])
+        expect("Trace_Ops: three corrupted results rejected, clause named",
+               got == [("apply_hyper/trace", "trace:result-class"), ("dist2_pp/trace", "trace:value"), ("seg_contains/trace", "trace:truth-value")], got)
     finally:
         import shutil
         shutil.rmtree(ctx.work, ignore_errors=True)
